@@ -431,7 +431,7 @@ func main() {
 			"concurrency between the singleton controller and the queue workers is represented at method granularity (each StartCommand / Reconcile / cleanup is one atomic step)",
 		},
 	}
-	c.Finish("From KV Require Import C08.Model C08.Check.", "case", "check_all", 700)
+	c.Finish("From KV Require Import C08.Model C08.Check.", "case", "check_all", 500)
 	if dir := os.Getenv("C08_COVDIR"); dir != "" { // coverage audit builds only (go build -cover)
 		if err := coverage.WriteMetaDir(dir); err != nil {
 			fmt.Fprintln(os.Stderr, "coverage meta:", err)
